@@ -72,7 +72,7 @@ def czlist(v):
 
 
 def cnatlist(v):
-    return "[" + "; ".join(str(int(x)) for x in v) + "]"
+    return "[" + "; ".join("%d%%nat" % int(x) for x in v) + "]"
 
 
 def cbool(b):
